@@ -1010,7 +1010,7 @@ struct Driver {
         if (w.k.Exists(pth)) w.Report("C18", "clean_incomplete", desc + " left " + pth + " in place although it is in scope");
       }
     }
-    if (dry) {
+    if (dry && r.res.exit_code == 0) {   // (a rule defined inside a subninja scope is not a name -r can look up)
       for (auto& pth : existing_in_scope) {
         if (generator_outs.count(pth) && mode != 1 && !untargeted) continue;
         if (r.res.out.find("Remove " + pth) == std::string::npos) w.Report("C18", "clean_incomplete", "ninja -n -t clean did not report " + pth);
